@@ -6,7 +6,6 @@ package main
 import (
 	"fmt"
 	"math/big"
-	"strings"
 	"time"
 
 	"github.com/tuneinsight/lattigo/v6/ring"
@@ -834,10 +833,8 @@ func ringScenario(N int, moduli []uint64, cls string) engine.Scenario {
 			check := func(op string, got ring.Poly, f func(i int, q uint64, j int) uint64, strictRange bool) bool {
 				evals++
 				sigOf := func(kind string) string { return "C01/ring/" + op + "/" + kind }
-				if N == 8 && strings.Contains(op, "DoubleRNSScalar") {
-					// these split the vector in halves of N/2=4 lanes and hand them to 8-lane kernels
-					sigOf = func(string) string { return "C01/ring/DoubleRNSScalar-ops@N=8(half-vectors-of-4-lanes)" }
-				}
+				// (the N=8 Double-RNS-scalar operations used to overrun their 4-lane halves: repaired in /repo 6ac16da,
+				// judged like every other operation since)
 				for i, q := range qs {
 					for j := 0; j < N; j++ {
 						w := f(i, q, j)
